@@ -261,7 +261,7 @@ def runOp (op : String) (fields : List String) (impl : String) : Option Verdict 
          | [] => true)
       | _ => pos == "-"
     match impl.splitOn " ;; " with
-    | [ia, ib, st, ps] =>
+    | [ia, ib, st, ps, al] =>
       let posClauses : List String :=
         match ps.splitOn " " with
         | ["POS", pa, pb] =>
@@ -269,13 +269,17 @@ def runOp (op : String) (fields : List String) (impl : String) : Option Verdict 
           (if posOk b ib pb then [] else ["c14-error-position-not-of-this-source", "c14-result-depends-on-history"])
         | _ => ["unreadable-result"]
       -- each call is the function value for its own (source, parameters): no history
-      pure { model := (if ma == normCompile ia then ia else ma) ++ " ;; " ++ (if mb == normCompile ib then ib else mb) ++ " ;; PARAMS-OK ;; " ++ ps,
+      -- the second call of the sequence against the SAME program compiled on its own by the implementation: a
+      -- let of the first program visible in the second, or any other dependence on history, shows as a difference
+      -- between these two answers (a difference from the MODEL would only say that the compiler changed)
+      let alone := (al.splitOn " ").drop 1 |> " ".intercalate
+      pure { model := (if ma == normCompile ia then ia else ma) ++ " ;; " ++ (if mb == normCompile ib then ib else mb) ++ " ;; PARAMS-OK ;; " ++ ps ++ " ;; " ++ al,
              oracle := posClauses ++ (if st != "PARAMS-OK" then ["c14-parameter-map-modified", "c06-let-escapes-its-program"] else []) ++
-                       (if mb != normCompile ib && ma == normCompile ia then ["c06-let-escapes-its-program", "c14-result-depends-on-history"] else []) ++
+                       (if ib != alone then ["c06-let-escapes-its-program", "c14-result-depends-on-history"] else []) ++
                        -- C13 / C05 on each call of the sequence: fails exactly on parse error or misuse, whatever was compiled before
                        ((CompileOracle.clauses a params ia ++ CompileOracle.clauses b params ib).filter
                           fun c => c.startsWith "c13-" || c.startsWith "c05-") }
-    | _ => pure { model := ma ++ " ;; " ++ mb ++ " ;; PARAMS-OK ;; POS - -", oracle := ["unreadable-result"] }
+    | _ => pure { model := ma ++ " ;; " ++ mb ++ " ;; PARAMS-OK ;; POS - - ;; ALONE " ++ mb, oracle := ["unreadable-result"] }
   | "COMPILE2", [ha, hb, ps] => do
     let a ← Bytes.ofHex ha
     let b ← Bytes.ofHex hb
